@@ -132,6 +132,8 @@ pub struct Sim {
     pub history: Vec<String>,
     pub stats: BTreeMap<String, u64>,
     pub check_oracle: bool,
+    /// long histories of honest proof applications: no per-call snapshot of the stores (no crash points are taken)
+    pub light: bool,
 }
 
 pub fn probe_indices(len: u64) -> Vec<u64> {
@@ -152,7 +154,7 @@ fn events_to_strings(evs: Vec<Event>) -> Vec<String> {
 }
 
 impl Sim {
-    pub fn new() -> Self { Sim { proof: None, proof_honest: false, proof_writer_len: 0, readfiles_of: String::new(), h: BTreeMap::new(), failures: vec![], line: 0, history: vec![], stats: BTreeMap::new(), check_oracle: true } }
+    pub fn new() -> Self { Sim { proof: None, proof_honest: false, proof_writer_len: 0, readfiles_of: String::new(), h: BTreeMap::new(), failures: vec![], line: 0, history: vec![], stats: BTreeMap::new(), check_oracle: true, light: false } }
     fn fail(&mut self, key: &str, detail: String) {
         *self.stats.entry("oracle_failures".into()).or_insert(0) += 1;
         if self.failures.len() < 200 {
@@ -679,10 +681,11 @@ impl Sim {
         let wlen = self.proof_writer_len;
         let Some(h) = self.h.get_mut(name) else { return "nocore".into() };
         if h.core.is_none() { return "nocore".into(); }
-        Self::snapshot(h);
+        if !(self.light && honest) { Self::snapshot(h); }
         let idx0 = probe_indices(h.oracle.len);
         let before_probe = if honest { String::new() } else { Self::probe_core(h.core.as_mut().unwrap(), &idx0) };
         if !honest { Self::drain(h); }
+        let fork_before = h.core.as_ref().unwrap().info().fork;
         let r = block_on(AssertUnwindSafe(h.core.as_mut().unwrap().verify_and_apply_proof(&proof)).catch_unwind());
         let j = Self::take_journal(h);
         let ev = Self::drain(h);
@@ -692,9 +695,14 @@ impl Sim {
         let writer = h.writer.clone();
         let mut fails: Vec<(&str, String)> = vec![];
         if out == "panic" { fails.push(("apply-panic", format!("verify_and_apply_proof panicked on {}", trunc(&proof_txt(&proof))))); }
-        let truth: Vec<Vec<u8>> = self.h.get(&writer).map(|w| w.oracle.blocks.clone()).unwrap_or_default();
+        // the writer's blocks, borrowed for the duration of the checks (put back below)
+        let truth: Vec<Vec<u8>> = self.h.get_mut(&writer).map(|w| std::mem::take(&mut w.oracle.blocks)).unwrap_or_default();
         let h = self.h.get_mut(name).unwrap();
         let accepted = out == "ok true";
+        if accepted && proof.fork != fork_before {
+            // C04: a proof whose claimed fork differs from the replica's is refused, whatever else it carries
+            fails.push(("foreign-fork-accepted", format!("a proof claiming fork {} was accepted by a replica on fork {}: {}", proof.fork, fork_before, trunc(&proof_txt(&proof)))));
+        }
         if accepted {
             // what the replica now believes must be the writer's truth
             let info = h.core.as_ref().unwrap().info();
@@ -703,7 +711,7 @@ impl Sim {
                 fails.push(("replica-believes-unsigned-head", format!("after an accepted proof the replica reports length {} byte_length {} but the writer's first {} blocks total {} bytes (writer length {})", info.length, info.byte_length, info.length, prefix, truth.len())));
             }
             let o = &mut h.oracle;
-            o.blocks = truth.clone();
+            if o.blocks.len() != truth.len() { o.blocks = truth.clone(); }
             if honest {
                 // an upgrade always carries the writer's current signature: the additional nodes
                 // extend a partial upgrade to the length the writer had when it made the proof
@@ -730,6 +738,7 @@ impl Sim {
             }
         }
         Self::note_journal(h, &j);
+        if let Some(w) = self.h.get_mut(&writer) { w.oracle.blocks = truth; }
         for (k, d) in fails { self.fail(k, d); }
         self.bump(if accepted { "apply_accepted" } else if out == "ok false" { "apply_refused" } else if out == "err" { "apply_error" } else { "apply_panic" });
         format!("{out} j={}{ev}", jfmt(&j))
